@@ -428,7 +428,9 @@ func (f *Flow) condGen(m *Matcher, cond ssa.Value) (g [2][]Atom, gs [2][]sumRef)
 		if isErrorType(pred.X.Type()) {
 			g[otherIdx] = append(g[otherIdx], "nn:"+pred.X.Name())
 		}
-		if call, idx := m.CallResult(pred.X); call != nil {
+		// only error results have a success summary; `x == nil` on any other
+		// call result (a key, a pointer) must not be read as "callee succeeded"
+		if call, idx := m.CallResult(pred.X); call != nil && isErrorType(pred.X.Type()) {
 			if cal := f.P.body(call.Common().StaticCallee()); cal != nil {
 				gs[holdIdx] = append(gs[holdIdx], sumRef{cal, idx, "err"})
 			}
